@@ -202,11 +202,23 @@ def run(chk):
     corpus = load_corpus()
     lines = corpus + [c for c, _ in cases]
     kinds = ["corpus"] * len(corpus) + [k for _, k in cases]
-    impl = vlib.run_parallel(exe, lines, nshards=vlib.NCPU)
+    # the cost per case differs a lot between algorithms: run in a shuffled order so that the shards are balanced
+    order = list(range(len(lines)))
+    chk.rng.shuffle(order)
+    shuffled = [lines[i] for i in order]
+
+    def run_balanced(prog, **kw):
+        out = vlib.run_parallel(prog, shuffled, nshards=vlib.NCPU, **kw)
+        res = [None] * len(lines)
+        for k, i in enumerate(order):
+            res[i] = out[k]
+        return res
+
+    impl = run_balanced(exe)
     model = None
     try:
         mexe = vlib.build_ocaml_model("C17")
-        model = vlib.run_parallel(mexe, lines, nshards=vlib.NCPU, timeout=900)
+        model = run_balanced(mexe, timeout=900)
     except vlib.BuildError as e:
         chk.broken.append({"kind": "extract", "name": "Extract_C17", "detail": str(e)[:500]})
     for i, line in enumerate(lines):
